@@ -126,34 +126,26 @@ impl FeelIterator {
         let mut overflow = true;
         'inner: for (x, iteration_state) in self.iteration_states.iter_mut().enumerate() {
           if overflow {
-            if x == last_iteration_state_index {
-              if iteration_state.step > 0 && iteration_state.index + iteration_state.step > iteration_state.end {
-                break 'outer;
-              }
-              if iteration_state.step < 0 && iteration_state.index + iteration_state.step < iteration_state.end {
-                break 'outer;
-              }
-            }
-            if iteration_state.step > 0 {
-              if iteration_state.index + iteration_state.step <= iteration_state.end {
-                iteration_state.index += iteration_state.step;
-                overflow = false;
-              } else {
-                iteration_state.index = iteration_state.start;
-                overflow = true;
-              }
-            }
-            if iteration_state.step < 0 {
-              if iteration_state.index + iteration_state.step >= iteration_state.end {
-                iteration_state.index += iteration_state.step;
-                overflow = false;
-              } else {
-                iteration_state.index = iteration_state.start;
-                overflow = true;
-              }
-            }
             if iteration_state.step == 0 {
               break 'outer;
+            }
+            // calculate the next index, there is none beyond the end of the iterated range or list
+            let next_index = iteration_state.index.checked_add(iteration_state.step).filter(|next_index| {
+              if iteration_state.step > 0 {
+                *next_index <= iteration_state.end
+              } else {
+                *next_index >= iteration_state.end
+              }
+            });
+            if let Some(next_index) = next_index {
+              iteration_state.index = next_index;
+              overflow = false;
+            } else {
+              if x == last_iteration_state_index {
+                break 'outer;
+              }
+              iteration_state.index = iteration_state.start;
+              overflow = true;
             }
           } else {
             break 'inner;
